@@ -507,3 +507,14 @@ example : ((Map.empty (V := Nat) 1 (fun k => k)).run [.insert 1 10, .insert 3 30
     = [.unit, .unit, .unit, .found (some (3, 30))] := by decide
 
 end Via
+
+namespace Via
+
+/-- structural facts about the C++ the sequential refinement is lifted with (re-extracted from
+    threadsafe_hash_map.hpp on every run): `remove_mapping` compares the key at the `lower_bound` position while it
+    holds the bucket's exclusive lock, and every bucket operation takes the lock before it touches the data -/
+theorem C18_erase_compares_key_under_lock : Gen.eraseComparesKey = true := by decide
+
+theorem C18_lock_discipline : Gen.bucketOpsTakeLockFirst = true := by decide
+
+end Via
